@@ -74,6 +74,7 @@ type c13sim struct {
 	applied     map[string]int // op id -> times executed at the peer by a link
 	applTxn     map[string]map[int]bool
 	marker      []byte // a marker value observed in the wild (reused as a client value)
+	trackExists bool   // the sites model key existence: a mirrored DEL is a no-op at the peer and is left out of its stream
 	multiDB     bool   // clients also write in database 1
 	bigTxn      bool   // this run may contain one client transaction of 1000+ commands
 	bigTxnDone  bool
@@ -259,6 +260,13 @@ func (c *c13sim) clientOp(s *c13site) {
 		}
 		s.srv.Dispatch(cl, bs)
 	}
+	if c.trackExists {
+		for _, cmd := range op.cmds {
+			if cmd[0] == "del" {
+				s.srv.MarkExists(op.db, cmd[1])
+			}
+		}
+	}
 	if op.txn {
 		disp("multi")
 	}
@@ -365,6 +373,16 @@ func runC13(r *Run, stratum string) *Violation {
 	c.db1Excluded = c.multiDB && g.Choose("db1excluded", 3) == 0
 	c.a = c.newSite("A", "10.1.0.1:6379", "a"+hexID(g.Bytes("ida", 20))[1:], flavour)
 	c.b = c.newSite("B", "10.2.0.1:6379", "b"+hexID(g.Bytes("idb", 20))[1:], flavour)
+	if stratum != "snapshot" && g.Choose("noop-omission", 2) == 0 {
+		// "the rewrites a Redis master applies when propagating (... omission of no-op commands)" for a BUSINESS command:
+		// the sites keep a minimal existence model; a key a client deletes is there at the client's site (the DEL is
+		// effective and propagates) and is not at the peer (already gone there: expired, evicted, deleted), so the
+		// mirrored DEL is a no-op at the peer and its master leaves it out of the transaction it propagates - which the
+		// opposite link must still recognise as mirrored
+		c.a.srv.LenientTrack, c.b.srv.LenientTrack = true, true
+		c.trackExists = true
+		simrt.Probe("c13_noop_omission_modelled")
+	}
 	modes := []string{"sync", "pipeline", "parallel"}
 	mode := func() string {
 		switch stratum {
